@@ -9,7 +9,7 @@ SITE = "mlmodel.CategoriesToIntegers"
 
 # category code -> value.  kind "str": 'v1'..'v9' (string order = code order); kind "int": integers whose natural order
 # is the code order but whose str() order is not (2 < 10 < 30 < 100 ...), kept in an object column
-INTS = [None, 2, 10, 30, 100, 200, 1000, 3000, 10000, 20000]
+INTS = [None, 0, 10, 30, 100, 200, 1000, 3000, 10000, 20000]      # 0: a category that is falsy
 KIND = ["str"]
 
 
@@ -77,7 +77,10 @@ def observe(cats, remove, skip, frame_rows, ncat, nnum, kind="str"):
     dup = (len(frame_rows) + ncat + len(remove) + int(skip)) % 2 == 0
     idx = [7 * (r // 2 if dup else r) + 5 for r in range(len(frame_rows))]
     B = make_frame(frame_rows, ncat, nnum, idx)
+    if (len(frame_rows) + len(remove)) % 2:
+        B = B[list(B.columns)[::-1]]          # the frame to encode holds its columns in another order than the training frame
     B0 = B.copy(deep=True)
+    numorder = [c for c in B.columns if c.startswith("n")]
     out = {}
     tr = CategoriesToIntegers(columns=cols, remove=rm, skip_errors=skip, single=False)
     prior = (len(frame_rows) + ncat + len(remove)) % 3 == 0
@@ -103,7 +106,7 @@ def observe(cats, remove, skip, frame_rows, ncat, nnum, kind="str"):
         R = None
     out.update(res=[[] for _ in frame_rows], others_nan=True, numeric_ok=True, index_ok=True)
     if R is not None:
-        ok_cols = list(R.columns) == ["n%d" % (c + 1) for c in range(nnum)] + sch
+        ok_cols = list(R.columns) == numorder + sch
         M = R[sch].to_numpy(dtype=float) if ok_cols else numpy.full((len(frame_rows), len(sch)), 7.0)
         out["res"] = [[int(q) for q in numpy.where(M[r] == 1.0)[0]] for r in range(M.shape[0])]
         out["others_nan"] = bool(ok_cols and numpy.all(numpy.isnan(M) | (M == 1.0)))
